@@ -34,6 +34,7 @@ type hspec struct {
 	Pub      int // -1 = no-publisher handler
 	PubTopic string
 	AppendMW bool // only meaningful for no-publisher handlers and normal ones alike: middleware adding one output
+	Late     bool // added after Run, started by RunHandlers
 }
 
 type mspec struct {
@@ -79,6 +80,7 @@ func genCase(t *rapid.T) caseT {
 			SubTopic: rapid.SampledFrom(topics).Draw(t, "subTopic"),
 			Pub:      rapid.IntRange(-1, np-1).Draw(t, "pub"),
 			AppendMW: rapid.IntRange(0, 3).Draw(t, "appendMW") == 0,
+			Late:     i > 0 && rapid.IntRange(0, 3).Draw(t, "addedAfterRun") == 0,
 		}
 		if h.Pub >= 0 {
 			h.PubTopic = rapid.SampledFrom(topics).Draw(t, "pubTopic")
@@ -106,7 +108,7 @@ func (c caseT) canon() string {
 	var b strings.Builder
 	fmt.Fprintf(&b, "%q|%q|%d|%v|%v|%d%d|", c.SubNames, c.PubNames, c.PerChan, c.Wait, c.Phase2, c.PubDecs, c.SubDecs)
 	for _, h := range c.Handlers {
-		fmt.Fprintf(&b, "%q,%d,%s,%d,%s,%v;", h.Name, h.Sub, h.SubTopic, h.Pub, h.PubTopic, h.AppendMW)
+		fmt.Fprintf(&b, "%q,%d,%s,%d,%s,%v,%v;", h.Name, h.Sub, h.SubTopic, h.Pub, h.PubTopic, h.AppendMW, h.Late)
 	}
 	for ch := 0; ch < len(c.Handlers); ch++ {
 		for k := 0; k < c.PerChan; k++ {
@@ -188,95 +190,113 @@ func runCase(t *rapid.T, c caseT) {
 	}
 	var mu sync.Mutex
 	handledBy := map[string][]handled{} // tag -> invocations
-	for _, hs := range c.Handlers {
-		hs := hs
-		fn := func(msg *message.Message) ([]*message.Message, error) {
-			tag := msg.Metadata.Get("tag")
-			ms := c.Msgs[tag]
-			var outs []*message.Message
-			if hs.Pub >= 0 {
-				if ms.Shared {
-					outs = append(outs, msg)
-				}
-				for i := 0; i < ms.Outs; i++ {
-					o := message.NewMessage(fmt.Sprintf("%s-o%d", tag, i), []byte(hs.Name+"/"+tag))
-					o.Metadata.Set("i", fmt.Sprint(i))
-					if i%2 == 1 || len(tag)%2 == 1 {
-						// outputs may carry a context of their own (tracing spans, deadlines): the router only ADDS its values
-						o.SetContext(context.WithValue(context.Background(), ownCtxKey{}, "own:"+o.UUID))
-					}
-					outs = append(outs, o)
-					if i == 0 && ms.Dup {
-						outs = append(outs, o)
-					}
-				}
-				for _, o := range outs {
-					o.Metadata.Set("src", tag)
-					o.Metadata.Set("h", hs.Name)
-				}
+	addPass := func(late bool) {
+		for _, hs := range c.Handlers {
+			if hs.Late != late {
+				continue
 			}
-			if len(outs) == 0 && len(tag)%2 == 0 {
-				outs = message.Messages{} // "nothing" as an empty slice rather than nil
-			}
-			rec := handled{handler: hs.Name, ctx: msg.Context(), outs: append([]*message.Message(nil), outs...), ctxVals: ctxVals(msg.Context())}
-			for _, o := range outs {
-				rec.snaps = append(rec.snaps, lib.SnapOf(o))
-				rec.ownCtx = append(rec.ownCtx, o.Context().Value(ownCtxKey{}))
-			}
-			mu.Lock()
-			handledBy[tag] = append(handledBy[tag], rec)
-			mu.Unlock()
-			return outs, nil
-		}
-		var h *message.Handler
-		if hs.Pub >= 0 {
-			h = router.AddHandler(hs.Name, hs.SubTopic, subIface[hs.Sub], hs.PubTopic, pubIface[hs.Pub], fn)
-		} else {
-			h = router.AddNoPublisherHandler(hs.Name, hs.SubTopic, subIface[hs.Sub], func(msg *message.Message) error {
-				_, err := fn(msg)
-				return err
-			})
-		}
-		if !hs.AppendMW && hs.Sub%2 == 0 {
-			// a middleware that says "nothing produced" with an empty slice instead of nil (filtering middlewares do)
-			h.AddMiddleware(func(next message.HandlerFunc) message.HandlerFunc {
-				return func(msg *message.Message) ([]*message.Message, error) {
-					out, err := next(msg)
-					if len(out) == 0 {
-						out = make([]*message.Message, 0, 1)
+			hs := hs
+			fn := func(msg *message.Message) ([]*message.Message, error) {
+				tag := msg.Metadata.Get("tag")
+				ms := c.Msgs[tag]
+				var outs []*message.Message
+				if hs.Pub >= 0 {
+					if ms.Shared {
+						outs = append(outs, msg)
 					}
-					return out, err
-				}
-			})
-		}
-		if hs.AppendMW {
-			h.AddMiddleware(func(next message.HandlerFunc) message.HandlerFunc {
-				return func(msg *message.Message) ([]*message.Message, error) {
-					out, err := next(msg)
-					if err == nil {
-						o := message.NewMessage(msg.Metadata.Get("tag")+"-mw", []byte("mw"))
-						o.Metadata.Set("src", msg.Metadata.Get("tag"))
-						o.Metadata.Set("h", hs.Name)
-						out = append(out, o)
-						mu.Lock()
-						recs := handledBy[msg.Metadata.Get("tag")]
-						if n := len(recs); n > 0 {
-							recs[n-1].outs = append(recs[n-1].outs, o)
-							recs[n-1].snaps = append(recs[n-1].snaps, lib.SnapOf(o))
-							recs[n-1].ownCtx = append(recs[n-1].ownCtx, nil)
+					for i := 0; i < ms.Outs; i++ {
+						o := message.NewMessage(fmt.Sprintf("%s-o%d", tag, i), []byte(hs.Name+"/"+tag))
+						o.Metadata.Set("i", fmt.Sprint(i))
+						if i%2 == 1 || len(tag)%2 == 1 {
+							// outputs may carry a context of their own (tracing spans, deadlines): the router only ADDS its values
+							octx := context.WithValue(context.Background(), ownCtxKey{}, "own:"+o.UUID)
+							if i == 1 {
+								// ... also one that is over already: what the publisher makes of it is the publisher's business
+								var ocancel context.CancelFunc
+								octx, ocancel = context.WithCancel(octx)
+								ocancel()
+							}
+							o.SetContext(octx)
 						}
-						mu.Unlock()
+						outs = append(outs, o)
+						if i == 0 && ms.Dup {
+							outs = append(outs, o)
+						}
 					}
-					return out, err
+					for _, o := range outs {
+						o.Metadata.Set("src", tag)
+						o.Metadata.Set("h", hs.Name)
+					}
 				}
-			})
+				if len(outs) == 0 && len(tag)%2 == 0 {
+					outs = message.Messages{} // "nothing" as an empty slice rather than nil
+				}
+				rec := handled{handler: hs.Name, ctx: msg.Context(), outs: append([]*message.Message(nil), outs...), ctxVals: ctxVals(msg.Context())}
+				for _, o := range outs {
+					rec.snaps = append(rec.snaps, lib.SnapOf(o))
+					rec.ownCtx = append(rec.ownCtx, o.Context().Value(ownCtxKey{}))
+				}
+				mu.Lock()
+				handledBy[tag] = append(handledBy[tag], rec)
+				mu.Unlock()
+				return outs, nil
+			}
+			var h *message.Handler
+			if hs.Pub >= 0 {
+				h = router.AddHandler(hs.Name, hs.SubTopic, subIface[hs.Sub], hs.PubTopic, pubIface[hs.Pub], fn)
+			} else {
+				h = router.AddNoPublisherHandler(hs.Name, hs.SubTopic, subIface[hs.Sub], func(msg *message.Message) error {
+					_, err := fn(msg)
+					return err
+				})
+			}
+			if !hs.AppendMW && hs.Sub%2 == 0 {
+				// a middleware that says "nothing produced" with an empty slice instead of nil (filtering middlewares do)
+				h.AddMiddleware(func(next message.HandlerFunc) message.HandlerFunc {
+					return func(msg *message.Message) ([]*message.Message, error) {
+						out, err := next(msg)
+						if len(out) == 0 {
+							out = make([]*message.Message, 0, 1)
+						}
+						return out, err
+					}
+				})
+			}
+			if hs.AppendMW {
+				h.AddMiddleware(func(next message.HandlerFunc) message.HandlerFunc {
+					return func(msg *message.Message) ([]*message.Message, error) {
+						out, err := next(msg)
+						if err == nil {
+							o := message.NewMessage(msg.Metadata.Get("tag")+"-mw", []byte("mw"))
+							o.Metadata.Set("src", msg.Metadata.Get("tag"))
+							o.Metadata.Set("h", hs.Name)
+							out = append(out, o)
+							mu.Lock()
+							recs := handledBy[msg.Metadata.Get("tag")]
+							if n := len(recs); n > 0 {
+								recs[n-1].outs = append(recs[n-1].outs, o)
+								recs[n-1].snaps = append(recs[n-1].snaps, lib.SnapOf(o))
+								recs[n-1].ownCtx = append(recs[n-1].ownCtx, nil)
+							}
+							mu.Unlock()
+						}
+						return out, err
+					}
+				})
+			}
 		}
 	}
+	addPass(false)
 	go router.Run(context.Background())
 	select {
 	case <-router.Running():
 	case <-time.After(lib.Live):
 		t.Fatalf("harness: router did not start")
+	}
+	// handlers added to the running router and started with RunHandlers are handlers like any other
+	addPass(true)
+	if err := router.RunHandlers(context.Background()); err != nil {
+		t.Fatalf("RunHandlers: %v", err)
 	}
 	// group handlers by (subscriber, topic)
 	type gk struct {
